@@ -112,29 +112,30 @@ Print Assumptions C11_example_now.
 (* ---- the stateful phase's producer thread (execute_state_machine_loop), ModelP_C11 ----
    For every behaviour of Hypothesis inside `run` (any number of suites, scenarios, steps, any outcome of every step, any
    way `run` ends), every failure limit, every initial state of the stop flags and every point at which a stop request
-   arrives: every prefix of what the thread puts is properly nested - suites one at a time, scenarios inside their suite,
+   arrives, and every pattern of faults in ctx.maximize_metrics() during teardown (the ScenarioFinished is put before it): every
+   prefix of what the thread puts is properly nested - suites one at a time, scenarios inside their suite,
    matching identifiers, no closing event without its opening one ... *)
-Theorem C11_stateful_producer_nested : forall c stop0 limit0 counter0 behs ls,
-  nested (pscript (prun c ls (pinit stop0 limit0 counter0 behs))) = true.
+Theorem C11_stateful_producer_nested : forall c faults stop0 limit0 counter0 behs ls,
+  nested (pscript (prun c ls (pinit_f faults stop0 limit0 counter0 behs))) = true.
 Proof. exact producer_nested. Qed.
 Print Assumptions C11_stateful_producer_nested.
 
 (* ... and when the thread has ended every announced suite and scenario is closed, interrupted or not. *)
-Theorem C11_stateful_producer_closed : forall c stop0 limit0 counter0 behs ls,
-  let s := prun c ls (pinit stop0 limit0 counter0 behs) in
+Theorem C11_stateful_producer_closed : forall c faults stop0 limit0 counter0 behs ls,
+  let s := prun c ls (pinit_f faults stop0 limit0 counter0 behs) in
   p_pc s = PDone -> all_closed_p (pscript s) = true.
 Proof. exact producer_closed. Qed.
 Print Assumptions C11_stateful_producer_closed.
 
 (* Composition with the consumer (ModelS_C11): when the consumer is done, the stream holds exactly what the thread
    produced, hence is nested and closed. *)
-Theorem C11_stateful_stream_nested : forall c stop0 limit0 counter0 behs ls sched,
-  let p := prun c ls (pinit stop0 limit0 counter0 behs) in
+Theorem C11_stateful_stream_nested : forall c faults stop0 limit0 counter0 behs ls sched,
+  let p := prun c ls (pinit_f faults stop0 limit0 counter0 behs) in
   let s := srun pev true sched (sinit pev (pscript p)) in
   p_pc p = PDone -> s_cp s = SDone ->
   nested (strace pev s) = true /\ all_closed_p (strace pev s) = true.
 Proof.
-  intros c stop0 limit0 counter0 behs ls sched p s Hp Hs.
+  intros c faults stop0 limit0 counter0 behs ls sched p s Hp Hs.
   unfold s. rewrite (stateful_nothing_lost pev (pscript p) sched Hs).
   split; [apply producer_nested|apply producer_closed; exact Hp].
 Qed.
